@@ -1,5 +1,5 @@
 """Property table (kept in one place so MANIFEST.json, DESIGN.md and the checks agree)."""
-from checks import register
+from checks import register, PROPS
 
 register(
     "C16",
@@ -80,3 +80,38 @@ register(
     undecided_clauses=["global termination, deadlock freedom, 'every test executed at least once' (liveness)"],
 )
 LEVEL_TEXT["C02"] = "in progress"
+
+BOUNDED_NOTE = ("bounded stand-in: the executable contract is evaluated on the real functions over an enumerated finite "
+                "scope (bound stated in the evidence); never counted as proved")
+
+for _pid, _hook, _text in [
+    ("C11", "cmdline", "Tokenizer contract of params_from_cmd (order of restrictions, defaults, per-vm strings, rejections, "
+                       "overrides) and selection semantics against an independent matcher: exhaustive over all argument lists "
+                       "of length <= 3 from a 17-token alphabet in every order (bounded stand-in)."),
+    ("C12", "setup_policy", "Policy table, abort frame, untouched objects and store refinement of the six state operations "
+                            "against an in-memory back end: exhaustive over modes x presence x object types for the stated "
+                            "layouts (bounded stand-in)."),
+    ("C13", "pool_scopes", "Scope classification, proximity order, permitted sources, closest fetch, mirror coverage and "
+                           "refusals of the pool back ends with a recording transport (bounded stand-in)."),
+    ("C14", "pool_transfers", "Transfer exactness on real temporary directories and lock discipline of image_lock incl. "
+                              "exception injection at every call of the critical section and forked lock holders "
+                              "(bounded stand-in)."),
+    ("C15", "update_tool", "update() end to end on the shipped suite: executed path and removed states for (from, to) pairs, "
+                           "flag_children / flag_intersection against a naive fixpoint (bounded stand-in)."),
+    ("C17", "states_vm", "vm state = intersection over images for 1..3 images and all state-set assignments; on/off regex "
+                         "separation over generated qemu-img listings (exhaustive for the stated scope; bounded stand-in)."),
+    ("C18", "network", "Netmask/prefix round trip (all 33 prefixes, exhaustive), address translation and allocation against "
+                       "integer arithmetic, network structure after construction and reattachment (bounded stand-in)."),
+    ("C19", "tunnel", "Mirror relations of the generated end point parameters over the complete product of local x remote x "
+                      "peer x auth types, peer variants and symmetry of connects_nodes (exhaustive over the type product)."),
+    ("C20", "manu_steps", "Manu.run chain semantics and one run per (selected vm, compatible worker) for the built-in steps "
+                          "(bounded stand-in)."),
+]:
+    register(_pid, modules=[], bounded=[f"checks.bounded_hooks:{_hook}"], level="other",
+             explanation=_text + " " + BOUNDED_NOTE, technique="bounded native check of the real functions against an "
+             "executable contract (stand-in where no contract is discharged deductively yet)",
+             trusted=["mocks of infrastructure as in the project's own selftests"], undecided_clauses=[])
+    LEVEL_TEXT[_pid] = _text
+    NOT_APPLICABLE.pop(_pid, None)
+
+PROPS["C05"]["bounded"] = ["checks.bounded_hooks:sync_states"]
